@@ -34,6 +34,7 @@ CHECKS = {
         pkg="./c05", level="exploration",
         runs=[
             dict(name="dispatch", run="^TestPropDispatch$", checks=(12000, 80000), shards=(4, 16)),
+            dict(name="concurrent", run="^TestPropConcurrentDispatch$", checks=(1500, 10000), shards=(4, 16)),
             dict(name="doc", run="^TestDocCodes$", shards=(1, 1)),
         ],
     ),
